@@ -302,8 +302,12 @@ Post(s, e) ==
                 [] OTHER -> R(IF e.v
                               THEN LET late == {c \in Ids(s) : /\ \E i \in DOMAIN s.pendingInit : s.pendingInit[i] = c
                                                               /\ c \notin SnapIds(e.snap)}
-                                   IN [s EXCEPT !.gscSeen = TRUE, !.ban = @ \cup late,
-                                                !.D = [d \in Ids(s) \ late |-> s.D[d]],
+                                       \* the round ends here: it "took a sprout" from the parents of the children that exist
+                                       from == {s.D[c].parent : c \in s.roundNew \ late}
+                                   IN [s EXCEPT !.gscSeen = TRUE, !.ban = @ \cup late, !.roundFrom = from,
+                                                !.D = [d \in Ids(s) \ late |->
+                                                         IF HibOn(s) /\ d \in s.roundPart /\ late # {}
+                                                         THEN [s.D[d] EXCEPT !.hib = d \notin from] ELSE s.D[d]],
                                                 !.L = [i \in DOMAIN s.L |-> SelectSeq(s.L[i], LAMBDA x : x \notin late)],
                                                 !.wind = [d \in DOMAIN s.wind \ late |-> s.wind[d]],
                                                 !.pendingInit = SelectSeq(@, LAMBDA x : x \notin late),
